@@ -12,7 +12,7 @@ down. What the hints *say* is, label by label, the proper nesting `Bal` of their
 mark closes the latest still-open opening of that label, whatever its sign), a hint alone on a
 line being an addition opened on the first line and closed on the last one.
 -/
-import Paroxy.Proofs.HintsRound
+import Paroxy.Proofs.HintsPrepare
 import Paroxy.Proofs.HintsMalformed
 import Paroxy.Proofs.GlueCount
 namespace Paroxy.Props.C12
@@ -20,24 +20,57 @@ open Paroxy Paroxy.Hints Paroxy.Glue
 
 /-! ## Round trip: decorate → `get_program` -/
 
-/-- **C12 (round trip).** For every decorated program `d` whose code lines are hint-free single
-lines without trailing white space, whose labels are clean, whose first line is neither blank nor
-indented and whose last line is not blank (`hygienic`), and whose marks are, label by label,
-properly nested (`Bal`) with no label opened for addition and deletion on the same line (`noTie`):
-`get_program (decorate d)` succeeds; the stored source is the program without the hints; and the
-scheduled additions / deletions are, as multisets per label, exactly the spans the nesting names
-(single-line hints ↦ (i, i), pairs ↦ (i, j) with the sign of the opening, hints alone on a line
-↦ (1, number of lines)). -/
-theorem C12_roundtrip (d : Decorated) (r : Str → List SSpan)
-    (hyg : hygienic d = true)
-    (hbal : ∀ L, Bal (events d L) (r L))
-    (hnotie : ∀ L, noTie (events d L) = true) :
-    ∃ p, getProgram (decorate d) = .ok p ∧ p.source = joinNL (base d) ∧
+/-- Hygiene of the lines, whatever the spelling of the markers: code lines are single lines without
+trailing white space and without any look-alike of the marker (`(?i)#\s*paroxython\s*:`), not blank
+when they carry hints; labels start with a word character, contain neither white space nor `#`,
+do not end with an ellipsis. -/
+def linesOk (d : Decorated) : Bool :=
+  (codeLines d).all okCode && (wholeLabels d).all cleanLabel && looseOk d
+
+/-- **C12 (round trip).** For every decorated program `d` — code lines with trailing hints in any
+tolerated spelling (`+` optional, `…`, several spaces, several hints per line), hints alone on a
+line anywhere, **each marker spelled freely** (`#`, spaces, `paroxython` in any case, spaces, `:`,
+spaces or none), **blank lines allowed at both ends of the text** — whose lines are hygienic
+(`linesOk`), whose marks are, label by label, properly nested (`Bal`, LIFO):
+`get_program (decorateS d)` succeeds; the stored source is the program without its hints and
+without its blank end lines (`base (normalised d)`); the scheduled additions / deletions are, as
+multisets per label, exactly the spans the nesting names, numbered on the lines of that stored
+source.
+
+Hypotheses still genuinely needed on the repaired tree (`hygienic (normalised d)` beyond `linesOk`):
+* the first code line left after trimming is not blank and the last one is not blank: false only
+  when a hint alone on a line stands before (after) a blank line at the very beginning (end) of the
+  text — there the repaired code still numbers the blank line (`C12_roundtrip_counterexample`);
+* the first code line is not indented (`str.strip()` of the stored source; not valid Python anyway);
+* `noTie`: no label opened for addition and deletion on the same line — on such a tie the code
+  closes the addition first whatever the order of the two openings on the line, which is the
+  LIFO reading of `-L... L...` but not of `L... -L...`. -/
+theorem C12_roundtrip (d : List (Line × MarkerStyle)) (r : Str → List SSpan)
+    (hlines : linesOk (d.map Prod.fst) = true)
+    (hyg : hygienic (normalised d) = true)
+    (hbal : ∀ L, Bal (events (normalised d) L) (r L))
+    (hnotie : ∀ L, noTie (events (normalised d) L) = true) :
+    ∃ p, getProgram (decorateS d) = .ok p ∧ p.source = joinNL (base (normalised d)) ∧
       (∀ L s e, p.addition.count L (s, e) = (r L).count (false, s, e)) ∧
       (∀ L s e, p.deletion.count L (s, e) = (r L).count (true, s, e)) := by
+  have hy := hyg_of _ hyg
+  have hprep := prepare_decorateS d (linesOk_of _ hlines) hy.ne
   obtain ⟨p, h1, h2, h3, h4⟩ :=
-    getProgram_decorate d r (hyg_of d hyg) hbal (fun L => noTie_of _ (hnotie L))
-  exact ⟨p, h1, h2, fun L s e => h3 L (s, e), fun L s e => h4 L (s, e)⟩
+    getProgram_decorate (normalised d) r hy hbal (fun L => noTie_of _ (hnotie L))
+  exact ⟨p, by rw [getProgram, hprep]; exact h1, h2, fun L s e => h3 L (s, e), fun L s e => h4 L (s, e)⟩
+
+/-- **C12 (marker spelling).** `# paroxython:` is neither space- nor case-sensitive: whatever the
+spelling of each marker, `get_program` answers as for the normalised spelling. -/
+theorem C12_marker_tolerance (d : List (Line × MarkerStyle))
+    (hlines : linesOk (d.map Prod.fst) = true) (hne : (codeLines (normalised d)).isEmpty = false) :
+    getProgram (decorateS d) = getProgram (decorateS (d.map fun p => (p.1, {}))) := by
+  have hne' : codeLines (normalised d) ≠ [] := by simpa using hne
+  have e : normalised (d.map fun p => (p.1, ({} : MarkerStyle))) = normalised d := by
+    simp [normalised, List.map_map, Function.comp_def]
+  have h1 := prepare_decorateS d (linesOk_of _ hlines) hne'
+  have h2 := prepare_decorateS (d.map fun p => (p.1, ({} : MarkerStyle)))
+    (by simpa [List.map_map, Function.comp_def] using linesOk_of _ hlines) (by rw [e]; exact hne')
+  rw [getProgram, getProgram, h1, h2, e]
 
 /-- The executable reading of `Bal` used by the driver (`c12.spec_*`) is sound: the spans it
 returns are spans of a proper nesting. -/
@@ -88,27 +121,41 @@ theorem C12_balSpans_sound (w : List Ev) (r : List SSpan) (h : balSpans w = some
   · cases h
 
 /-- The manual's example (docs/md/preparing.md, "Multiple lines"), with a single-line deletion and
-addition, `…`, an extra space and a hint alone on a line added. -/
-def manualExample : Decorated :=
-  [ .code { code := "for am in ifera:".toList, pad := 0,
-            hints := [⟨.opn true, "loop:for".toList, { gap := 1 }⟩,
-                      ⟨.opn false, "amoeboid_protist".toList, { plus := true }⟩] },
-    .isolated 4 "meta/topic/fun".toList,
-    .code { code := "    catch(a + b)".toList, pad := 1,
-            hints := [⟨.one true, "addition_operator".toList, {}⟩,
-                      ⟨.one false, "concatenation_operator".toList, { plus := true }⟩] },
-    .code { code := "    eat()".toList,
-            hints := [⟨.cls, "loop:for".toList, {}⟩, ⟨.cls, "amoeboid_protist".toList, { uni := true }⟩] } ]
+addition, `…`, an extra space, a hint alone on a line, two free spellings of the marker and a
+blank line at each end of the text added. -/
+def manualExample : List (Line × MarkerStyle) :=
+  [ (.code { code := [] }, {}),
+    (.code { code := "for am in ifera:".toList, pad := 0,
+             hints := [⟨.opn true, "loop:for".toList, { gap := 1 }⟩,
+                       ⟨.opn false, "amoeboid_protist".toList, { plus := true }⟩] },
+      { sp1 := 2, caps := fun k => k == 0, sp2 := 1, after := 0 }),
+    (.isolated 4 "meta/topic/fun".toList, { sp1 := 0 }),
+    (.code { code := "    catch(a + b)".toList, pad := 1,
+             hints := [⟨.one true, "addition_operator".toList, {}⟩,
+                       ⟨.one false, "concatenation_operator".toList, { plus := true }⟩] }, {}),
+    (.code { code := "    eat()".toList,
+             hints := [⟨.cls, "loop:for".toList, {}⟩, ⟨.cls, "amoeboid_protist".toList, { uni := true }⟩] }, {}),
+    (.code { code := [] }, {}) ]
 
 /-- Non-vacuity of `C12_roundtrip`: the example is hygienic, and its marks are properly nested
 (shown for the four labels it mentions; for every other label there is no mark at all). -/
-example : hygienic manualExample = true := by decide
-example : balSpans (events manualExample "loop:for".toList) = some [(true, 1, 3)] := by decide
-example : balSpans (events manualExample "amoeboid_protist".toList) = some [(false, 1, 3)] := by decide
-example : balSpans (events manualExample "meta/topic/fun".toList) = some [(false, 1, 3)] := by decide
-example : balSpans (events manualExample "addition_operator".toList) = some [(true, 2, 2)] := by decide
-example : noTie (events manualExample "loop:for".toList) = true := by decide
-example : getProgram (decorate manualExample) = .ok
+example : linesOk (manualExample.map Prod.fst) = true := by decide
+example : hygienic (normalised manualExample) = true := by decide
+example : balSpans (events (normalised manualExample) "loop:for".toList) = some [(true, 1, 3)] := by decide
+example : balSpans (events (normalised manualExample) "amoeboid_protist".toList) = some [(false, 1, 3)] := by decide
+example : balSpans (events (normalised manualExample) "meta/topic/fun".toList) = some [(false, 1, 3)] := by decide
+example : balSpans (events (normalised manualExample) "addition_operator".toList) = some [(true, 2, 2)] := by decide
+example : noTie (events (normalised manualExample) "loop:for".toList) = true := by decide
+/- `decorateS manualExample` is the text
+```
+⏎
+for am in ifera: #  Paroxython :-loop:for... +amoeboid_protist...
+    #paroxython: meta/topic/fun
+    catch(a + b)  # paroxython: -addition_operator +concatenation_operator
+    eat() # paroxython: ...loop:for …amoeboid_protist
+⏎
+``` -/
+example : getProgram (decorateS manualExample) = .ok
     ⟨"for am in ifera:\n    catch(a + b)\n    eat()".toList,
      [("concatenation_operator".toList, [(2, 2)]), ("amoeboid_protist".toList, [(1, 3)]),
       ("meta/topic/fun".toList, [(1, 3)])],
@@ -134,7 +181,7 @@ theorem C12_schedule_shape (src : Str) (p : Program) (h : getProgram src = .ok p
     · intro a b
       simp only [spanLe, Bool.or_eq_true, decide_eq_true_eq, Bool.and_eq_true, beq_iff_eq]
       omega
-  unfold getProgram at h
+  unfold getProgram getProgramFrom at h
   split at h
   · cases h
   · rename_i c hc
@@ -154,11 +201,11 @@ theorem C12_schedule_shape (src : Str) (p : Program) (h : getProgram src = .ok p
             exact ⟨(hshape _).1, (hshape _).1, (hshape _).2, (hshape _).2⟩
       · cases hcol
 
-/-- The first/last-line hypotheses of `C12_roundtrip` cannot be dropped on the current tree
-(finding 7): here is the round-trip statement without them … -/
-def C12_roundtrip_without_blank_end_hypotheses : Prop :=
+/-- The residual first/last-line hypothesis cannot be dropped on the repaired tree: here is the
+round-trip statement for normalised spellings without `firstOk` / `lastOk` … -/
+def C12_roundtrip_without_end_hypotheses : Prop :=
   ∀ (d : Decorated) (r : Str → List SSpan),
-    ((codeLines d).all okCode && (wholeLabels d).all cleanLabel && !(codeLines d).isEmpty) = true →
+    (linesOk d && !(codeLines d).isEmpty) = true →
     (∀ L, Bal (events d L) (r L)) → (∀ L, noTie (events d L) = true) →
     ∃ p, getProgram (decorate d) = .ok p ∧ p.source = joinNL (base d) ∧
       (∀ L s e, p.addition.count L (s, e) = (r L).count (false, s, e)) ∧
@@ -166,32 +213,32 @@ def C12_roundtrip_without_blank_end_hypotheses : Prop :=
 
 def foo : Str := ['f', 'o', 'o']
 
-def blankFirstLines : Decorated :=
-  [ .code { code := [] }, .code { code := [] },
-    .code { code := ['x', ' ', '=', ' ', '1'], hints := [⟨.one false, foo, {}⟩] } ]
+def hintThenBlank : Decorated :=
+  [ .isolated 0 foo, .code { code := [] }, .code { code := ['x', ' ', '=', ' ', '1'] } ]
 
-/-- … and it is false: two blank lines, then `x = 1 # paroxython: foo`. The stored source is
-`x = 1` (one line) whereas `foo` is scheduled on line 3. -/
-theorem C12_roundtrip_counterexample : ¬ C12_roundtrip_without_blank_end_hypotheses := by
+/-- … and it is false: `# paroxython: foo`, a blank line, `x = 1`. The blank line is not at the
+beginning of the text, so it is not trimmed; it is numbered (foo on 1–2) and then stripped from the
+stored source (`x = 1`, one line). -/
+theorem C12_roundtrip_counterexample : ¬ C12_roundtrip_without_end_hypotheses := by
   intro h
-  let r : Str → List SSpan := fun L => if L = foo then [(false, 3, 3)] else []
-  have hev : ∀ L, events blankFirstLines L = if L = foo then [Ev.one false 3] else [] := by
+  let r : Str → List SSpan := fun L => if L = foo then [(false, 1, 2)] else []
+  have hev : ∀ L, events hintThenBlank L = if L = foo then [Ev.opn false 1, Ev.cls 2] else [] := by
     intro L
     by_cases hL : L = foo
     · subst hL; decide
-    · have : ¬ foo = L := fun e => hL e.symm
-      simp [events, blankFirstLines, codeLines, wholeLabels, eventsFrom, hintEvs, hL, this]
-  obtain ⟨p, hp, hsrc, _⟩ := h blankFirstLines r (by decide)
+    · have h1 : (foo == L) = false := by simpa using fun e => hL e.symm
+      simp [events, hintThenBlank, codeLines, wholeLabels, eventsFrom, hintEvs, hL, h1]
+  obtain ⟨p, hp, hsrc, _⟩ := h hintThenBlank r (by decide)
     (by
       intro L; rw [hev L]
       by_cases hL : L = foo
-      · simp only [hL, if_true, r]; exact .one .nil
+      · simp only [hL, if_true, r]; exact .pair (u := []) (w := []) .nil .nil
       · simp only [hL, if_false, r]; exact .nil)
     (by
       intro L; rw [hev L]
       by_cases hL : L = foo <;> simp [hL, noTie])
-  have hreal : getProgram (decorate blankFirstLines) =
-      .ok ⟨['x', ' ', '=', ' ', '1'], [(foo, [(3, 3)])], []⟩ := by rfl
+  have hreal : getProgram (decorate hintThenBlank) =
+      .ok ⟨['x', ' ', '=', ' ', '1'], [(foo, [(1, 2)])], []⟩ := by rfl
   rw [hreal] at hp
   cases hp
   revert hsrc
@@ -199,72 +246,50 @@ theorem C12_roundtrip_counterexample : ¬ C12_roundtrip_without_blank_end_hypoth
 
 /-! ## Malformed hint comments -/
 
-/-- **C12 (malformed ⇒ never a schedule).** Whatever the text: if, among the hint tokens of the
-centrifugated text, one is rejected by the token regex (or has the illegal form `...L...`), or for
-some label a closing mark has no opening mark still open before it, or an opening mark is never
-closed, then `get_program` raises — `ValueError` or, in the corner of finding 13, `TypeError` —
-and never returns a schedule. -/
-theorem C12_malformed (src c : Str) (hc : centrifugate src = .ok c) (hm : Malformed (hintToks c)) :
-    ∃ e, getProgram src = .error e ∧ (e = .valueError ∨ e = .typeError) := by
-  unfold getProgram
-  simp only [hc]
-  cases hcol : collectHints c with
-  | ok r =>
-    exact absurd hm (collectToks_ok_not_malformed _ r hcol)
-  | error e =>
-    refine ⟨e, rfl, ?_⟩
-    unfold collectHints collectToks at hcol
-    split at hcol
-    · rename_i st hst
-      unfold finish at hcol
-      split at hcol
-      · cases hcol; exact Or.inl rfl
-      · split at hcol
-        · cases hcol; exact Or.inl rfl
-        · cases hcol
-    · rename_i e' he'
-      cases hcol
-      exact runToks_error_class _ _ _ he'
-
-/-- **C12 (malformed ⇒ `ValueError`), partial.** When, moreover, no label is opened both for
-addition and for deletion on one line (`TieFree`), the exception is a `ValueError`. -/
-theorem C12_malformed_partial (src c : Str) (hc : centrifugate src = .ok c)
-    (hm : Malformed (hintToks c)) (htf : TieFree (hintToks c)) :
+/-- **C12 (malformed ⇒ `ValueError`).** Whatever the text: if, among the hint tokens of the text
+`collect_hints` reads (markers normalised, blank ends trimmed, isolated hints centrifugated), one is
+rejected by the token regex (or has the illegal form `...L...`), or for some label a closing mark
+has no opening mark still open before it, or an opening mark is never closed, then `get_program`
+raises `ValueError` — it never returns a schedule, and raises nothing else. -/
+theorem C12_malformed (src c : Str) (hc : centrifugate (prepare src) = .ok c) (hm : Malformed (hintToks c)) :
     getProgram src = .error .valueError := by
-  unfold getProgram
+  unfold getProgram getProgramFrom
   simp only [hc]
   cases hcol : collectHints c with
   | ok r => exact absurd hm (collectToks_ok_not_malformed _ r hcol)
-  | error e => rw [collectToks_error_value _ htf e hcol]
+  | error e => rw [collectToks_error_value _ e hcol]
 
-/-- The full sentence of the property ("… is rejected with a ValueError") … -/
-def C12_malformed_full : Prop :=
-  ∀ src c, centrifugate src = .ok c → Malformed (hintToks c) → getProgram src = .error .valueError
+/-- The only other exception of `get_program` is the `IndexError` of a text made only of hints
+alone on their line (no line is left to carry them): every error is one of the two. -/
+theorem C12_error_classes (src : Str) (e : Err) (h : getProgram src = .error e) :
+    e = .valueError ∨ (e = .indexError ∧ centrifugate (prepare src) = .error .indexError) := by
+  unfold getProgram getProgramFrom at h
+  cases hc : centrifugate (prepare src) with
+  | error e' =>
+    simp only [hc] at h; cases h
+    cases e
+    · exact Or.inl rfl
+    · exact Or.inr ⟨rfl, rfl⟩
+  | ok c =>
+    simp only [hc] at h
+    cases hcol : collectHints c with
+    | ok r => obtain ⟨a, d⟩ := r; simp [hcol] at h
+    | error e' =>
+      simp only [hcol] at h; cases h
+      exact Or.inl (collectToks_error_value _ e hcol)
 
-def tieSource : Str := "a # paroxython: foo... -foo...\nb # paroxython: ...foo".toList
+/-- The executable form the driver evaluates (`c12.spec_malformed`) is sound for the hypothesis
+above, so a `true` answer of the driver is an instance of the theorem. -/
+theorem C12_spec_malformed_sound (toks : List (Nat × Str)) (h : malformedB toks = true) : Malformed toks :=
+  malformed_of_B toks h
 
-/-- … is false on the current tree (finding 13): `foo... -foo...` on one line then one `...foo`
-leaves an opening mark unmatched, and the answer is a `TypeError`. -/
-theorem C12_malformed_counterexample : ¬ C12_malformed_full := by
-  intro h
-  have h1 : centrifugate tieSource = .ok tieSource := by rfl
-  have h2 : Malformed (hintToks tieSource) :=
-    Or.inr ⟨"foo".toList, Or.inr (by decide)⟩
-  have h3 := h tieSource tieSource h1 h2
-  have h4 : getProgram tieSource = .error .typeError := by rfl
-  rw [h4] at h3
-  cases h3
-
-/-- The executable forms the driver evaluates (`c12.spec_malformed`) are sound for the two
-hypotheses above, so a `true` answer of the driver is an instance of the theorems. -/
-theorem C12_spec_malformed_sound (toks : List (Nat × Str)) :
-    (malformedB toks = true → Malformed toks) ∧ (tieFreeB toks = true → TieFree toks) :=
-  ⟨malformed_of_B toks, tieFree_of_B toks⟩
-
-/-- Non-vacuity of `C12_malformed_partial`: an unmatched closing mark, a rejected token. -/
+/-- Non-vacuity: an unmatched closing mark, a rejected token, a label opened for addition and
+deletion on one line and closed once (the `TypeError` of the unrepaired tree). -/
 example : malformedB (hintToks "x = 1 # paroxython: ...foo".toList) = true := by decide
 example : malformedB (hintToks "x = 1 # paroxython: +-foo".toList) = true := by decide
 example : getProgram "x = 1\n# paroxython: -foo".toList = .error .valueError := by rfl
+example : getProgram "a # paroxython: foo... -foo...\nb # paroxython: ...foo".toList = .error .valueError := by rfl
+example : getProgram "# paroxython: foo".toList = .error .indexError := by rfl
 
 /-! ## Scheduled deletions and additions in the parser -/
 
